@@ -154,7 +154,7 @@ class P(Prop):
         total = sum(c["rated"] for c in comps)
         comps += [{"name": "l1", "cls": "load", "swb": 1, "rated": Fraction(20000), "eff": [1.0]},
                   {"name": "l2", "cls": "load", "swb": 2, "rated": Fraction(20000), "eff": [1.0]}]
-        f = rng.choice(EXACT_F + [Fraction(4, 5), Fraction(9, 10)])
+        f = rng.choice(EXACT_F)          # dyadic fractions only: thresholds and loads are exact in binary64
         n = rng.randint(2, 8)
         const = Fraction(rng.randint(0, 24), 64) * total * f
         series = [Fraction(rng.randint(0, 64), 64) * total * f for _ in range(n)]
